@@ -158,7 +158,7 @@ def configure(prog, rep, tag):
         c0 = q.const_int(first[0].args[2]) == 0 and all(b.dominates(first[0].bb, s.bb) for s in sends)
         st = regvals["DcSyncStartTime"][0][1]
         # d. shape ((t + d) / p) * p
-        c1 = has_root(st, "binop", "Mul") and has_root(st, "binop", "Div") and (has_root(st, "via", "num::wrapping_add") or has_root(st, "binop", "Add"))
+        c1 = ((has_root(st, "binop", "Mul") and has_root(st, "binop", "Div")) or (has_root(st, "binop", "Sub") and has_root(st, "binop", "Rem"))) and (has_root(st, "via", "num::wrapping_add") or has_root(st, "binop", "Add"))
         c1 = c1 and has_root(st, "field", "DcConfiguration", "sync0_period") and has_root(st, "field", "DcConfiguration", "start_delay") and (has_root(st, "await", "SubDeviceRef::register_read") or has_root(st, "call", "SubDeviceRef::register_read"))
         c1 = c1 and _same_p(b)
         c1 = c1 and _start_shape(b, regvals["DcSyncStartTime"][0][0].args[2], d)
@@ -244,10 +244,12 @@ def _same_p(b):
                 if op == "Div" and "u64" in s["rv"].get("lty", ""):
                     div = s["rv"]["a"][1]
                 if op == "Mul" and "u64" in s["rv"].get("lty", ""):
-                    mul = s["rv"]["a"][1]
+                    mul = s["rv"]["a"]
+                if op == "Rem" and "u64" in s["rv"].get("lty", ""):
+                    return True  # x - x % p: one p by construction (the tree shape is checked by _start_shape)
     if div is None or mul is None:
         return False
-    return nopanic._same_value(b, div, mul) or Prov(b).of_operand(div) == Prov(b).of_operand(mul)
+    return any(nopanic._same_value(b, div, m) or Prov(b).of_operand(div) == Prov(b).of_operand(m) for m in mul)
 
 
 def cycle(prog, rep, tag):
